@@ -20,6 +20,29 @@ def run(chk):
             w["wide"] = True
             w["id"] = b["id"] + "-wide"
             extra.append(w)
+    # the violating offset spelt as a constant term of its own, before or after the constant that would satisfy the constraint: a flattening
+    # that keeps only one constant term of a constraint (the first, the last) then sees a satisfied constraint
+    def split_variants(b):
+        out = []
+        for how in ("first", "last"):
+            w = json.loads(json.dumps(b))
+            hit = False
+            for side in ("p", "v"):
+                if w.get(side) is None:
+                    continue
+                for lst in [w[side]["ops"]] + w[side].get("cbs", []):
+                    for o in lst:
+                        if o.get("op") == "con" and o.get("delta") is not None and o.get("fix") is not None:
+                            o["split"] = how
+                            hit = True
+            if hit:
+                w["id"] = b["id"] + "-split-" + how
+                w["rets"] = None
+                out.append(w)
+        return out
+    for k, b in enumerate(bad):
+        if k % (3 if q else 1) == 0:
+            extra.extend(split_variants(b))
     # (B2) every single violated constraint / gate (position x phase) on the 256-bit curves: ideal verdict "rejected"
     for c in vlib.REAL_CURVES:
         rows = vlib.replay(chk, c, bad + extra, "c02")
@@ -57,7 +80,7 @@ def run(chk):
     chk.finish(
         rule="TLC (MC_Builder, Rich) enumerates every program of at most %d calls with one or two deviations - a constraint off by +1 or -1 "
              "constant (every position, both phases, constant-only / committed-only / multiplier constraints) or a gate whose output is "
-             "overwritten through the guarded hook (first and last gate, both phases); DeviationIffUnsatisfied is model-checked; each is replayed on "
+             "overwritten through the guarded hook (first and last gate, both phases), and variants in which the offset is a separate constant term before / after the satisfying constant; DeviationIffUnsatisfied is model-checked; each is replayed on "
              "secq256k1, zorro, curve25519 and must be rejected. Random bad-witness programs on toy31723 are validated by TLC (IdealSoundness), "
              "accepted ones re-run twice with fresh randomness. distinct = distinct (curve, program) pairs" % depth,
         assumptions=["ideal verdicts on 256-bit curves ignore events of probability ~2^-250",
